@@ -13,6 +13,7 @@
    (X Uc)^T (y Vc);  [proj_coef p t r] = (Uc Ui Vi^T Vc^T)^T is coef_. *)
 From mathcomp Require Import all_ssreflect all_algebra.
 From Verif Require Import MExp MExpMx Ridge2Fold Ridge2FoldMx OrthReg OrthRegMx MxFrobP Ridge2FoldP OrthRegP.
+From Verif Require Import OrthRegExt OrthRegExtP OrthRegHist OrthRegHistP.
 Set Implicit Arguments.
 Unset Strict Implicit.
 Unset Printing Implicit Defensive.
@@ -140,3 +141,180 @@ Proof.
   split; split; rewrite /= ?inj_mxE ?D ?trmx1 ?mulmx1 ?subrr //; try by move=> i; rewrite mxE ler01.
   by split; [rewrite trmx1 subrr | move=> i; rewrite mxE ler01].
 Qed.
+
+(* ======================================================================================== *)
+(* Extension (round 3).                                                                      *)
+(* ======================================================================================== *)
+
+(* ---- projector mode tied to the underlying linear fit ------------------------------------ *)
+(* [lin_recon_prog p t r] = C - Uc diag(sc) Vc^T with C = env oC the coefficients of the linear
+   estimator (p x t): the hint hypothesis the correspondence check evaluates for every case. *)
+
+(* W W^T and W^T W fix the column / row space of the linear coefficients ... *)
+Theorem C18_projectors_fix_linear_range :
+  forall (F : rcfType) (n p t r : nat) (env : env_mx F), proj_hyp env n p t r ->
+    eval_mx env (lin_recon_prog p t r) = 0 ->
+    let W := (eval_mx env (proj_coef p t r))^T in
+    W *m W^T *m env p t oC = env p t oC /\ env p t oC *m (W^T *m W) = env p t oC.
+Proof. exact: proj_fixes_linear_range. Qed.
+Print Assumptions C18_projectors_fix_linear_range.
+
+(* ... and coef_^T is an ISOMETRY on the range of the underlying linear fit: inputs that are
+   combinations  z C^T  of the linear coefficient vectors keep their norm *)
+Theorem C18_isometry_on_linear_range :
+  forall (F : rcfType) (n p t r : nat) (env : env_mx F), proj_hyp env n p t r ->
+    eval_mx env (lin_recon_prog p t r) = 0 ->
+    forall m (Z : 'M[F]_(m, t)),
+      fn2 (Z *m (env p t oC)^T *m (eval_mx env (proj_coef p t r))^T) = fn2 (Z *m (env p t oC)^T).
+Proof. exact: proj_isometry_on_linear_range. Qed.
+Print Assumptions C18_isometry_on_linear_range.
+
+(* recovery WITHOUT assuming anything about Uc, Vc beyond the SVD hypotheses: the linear estimator
+   is least squares ([normal_eq_prog n p t J] = (J X)^T (J X) C - (J X)^T (J y) = 0; J = [MId n]:
+   no intercept, J = [center_prog n]: LinearRegression() with intercept), X and J X have full column
+   rank (left inverses L, Lz), y = X Q with Q a partial isometry - orthonormal columns
+   (n_features >= n_targets) or orthonormal rows (n_features <= n_targets).  Then coef_^T = Q and
+   the training residual vanishes. *)
+Theorem C18_projector_recovers_least_squares :
+  forall (F : rcfType) (n p t r : nat) (env : env_mx F), proj_hyp env n p t r ->
+    eval_mx env (lin_recon_prog p t r) = 0 ->
+    forall (J : mexp n n) (Q : 'M[F]_(p, t)) (L Lz : 'M[F]_(p, n)),
+      eval_mx env (normal_eq_prog n p t J) = 0 ->
+      (forall i, 0 <= env r 1%N oSc i ord0) ->
+      L *m env n p oX = 1%:M -> Lz *m (eval_mx env J *m env n p oX) = 1%:M ->
+      env n t oY = env n p oX *m Q -> Q^T *m Q = 1%:M \/ Q *m Q^T = 1%:M ->
+      (eval_mx env (proj_coef p t r))^T = Q
+      /\ env n t oY - env n p oX *m (eval_mx env (proj_coef p t r))^T = 0.
+Proof. exact: proj_recovers_ols. Qed.
+Print Assumptions C18_projector_recovers_least_squares.
+
+(* padded mode with the zero padding of predict inside the statement (n_features = p < p + z):
+   predict(Z) = [Z 0] coef_^T has exactly the norm of Z *)
+Theorem C18_padded_predict_norm :
+  forall (F : rcfType) (n p z : nat) (env : env_mx F), pad_hyp env n (p + z) ->
+    forall m (Z : 'M[F]_(m, p)),
+      fn2 (row_mx Z (0 : 'M[F]_(m, z)) *m (eval_mx env (pad_coef (p + z)))^T) = fn2 Z.
+Proof. exact: pad_predict_norm. Qed.
+Print Assumptions C18_padded_predict_norm.
+
+(* non-vacuity of the hypotheses of the three projector theorems (2 x 2 identities, C = Q = 1,
+   singular values 1, J = identity) *)
+Example C18_ext_nonvacuous :
+  forall F : rcfType, exists env : env_mx F,
+    [/\ proj_hyp env 2 2 2 2, eval_mx env (lin_recon_prog 2 2 2) = 0,
+        eval_mx env (normal_eq_prog 2 2 2 (MId 2%N)) = 0 & env 2%N 2%N oY = env 2%N 2%N oX *m 1%:M].
+Proof.
+  move=> F.
+  exists (fun m n x => if x \in [:: oSp; oSi; oSc] then inj_mx (const_mx 1 : 'cV[F]_2) m n
+                       else inj_mx (1%:M : 'M[F]_2) m n).
+  have D : diag_mx (const_mx 1 : 'cV[F]_2)^T = 1%:M by rewrite trmx_const diag_const_mx.
+  split; last by rewrite /= !inj_mxE mulmx1.
+  - split; rewrite /= ?inj_mxE ?D ?trmx1 ?mulmx1 ?subrr //.
+    by split; [rewrite trmx1 subrr | move=> i; rewrite mxE ler01].
+  - by rewrite /= !inj_mxE D trmx1 !mulmx1 subrr.
+  - by rewrite /= !inj_mxE !mul1mx trmx1 !mulmx1 subrr.
+Qed.
+
+(* ---- the state machine over histories of calls (Model/OrthRegHist.v) ----------------------- *)
+Local Close Scope ring_scope.
+(* For EVERY choice [rt] of the numeric routines (validation, linear estimator, the two solvers,
+   predict), every initial world (heap of user estimator objects, regression objects holding them by
+   reference) and every history [h] of calls (fit / assignment of use_orthogonal_projector /
+   assignment of linear_estimator / the user fitting one of his estimators / predict). *)
+
+(* no call on a regression object ever writes an estimator object of the user (it is cloned) *)
+Theorem C18_user_estimators_never_written :
+  forall (M P H E R : Type) (rt : routines M P H E R) (h : list (op M)) (w : world P H),
+    List.forallb (fun a => negb (is_user_fit M a)) h = true ->
+    w_heap P H (mrun rt h w) = w_heap P H w.
+Proof. by move=> M P H E R rt h w; apply: run_heap_frame. Qed.
+Print Assumptions C18_user_estimators_never_written.
+
+(* refit = fresh fit: after ANY history, a fit has the outcome and leaves the fitted attributes
+   (coef_, and max_components_ in padded mode) of the same call in the world where nothing was ever
+   fitted - neither the regression objects nor the user's estimator objects *)
+Theorem C18_refit_is_fresh_fit :
+  forall (M P H E R : Type) (rt : routines M P H E R) (h : list (op M)) (w : world P H) (o : nat) (X y : M),
+    let w' := mrun rt h w in
+    snd (mstep rt (OFit M o X y) w') = snd (mstep rt (OFit M o X y) (reset P H w'))
+    /\ (snd (mstep rt (OFit M o X y) w') = OutOk E R ->
+        option_map (fitted_view P) (List.nth_error (w_objs P H (fst (mstep rt (OFit M o X y) w'))) o)
+        = option_map (fitted_view P) (List.nth_error (w_objs P H (fst (mstep rt (OFit M o X y) (reset P H w')))) o)).
+Proof. by move=> M P H E R rt h w o X y; apply: refit_is_fresh_fit. Qed.
+Print Assumptions C18_refit_is_fresh_fit.
+
+(* ... explicitly: coef_ = fit_value (mode in force) (hyper-parameters the referenced estimator had
+   in the INITIAL heap; None = LinearRegression()) X y,  max_components_ = pad_q X y in padded mode *)
+Theorem C18_fit_after_history :
+  forall (M P H E R : Type) (rt : routines M P H E R) (h : list (op M)) (w : world P H) (o : nat) (X y : M)
+         (ob : obj P) (hy : option H),
+    List.nth_error (w_objs P H (mrun rt h w)) o = Some ob ->
+    r_fit_check rt (o_proj P ob) X y = None ->
+    (if o_proj P ob then resolve_lin P H (w_heap P H w) (o_lin P ob) else Some None) = Some hy ->
+    snd (mstep rt (OFit M o X y) (mrun rt h w)) = OutOk E R
+    /\ exists ob', List.nth_error (w_objs P H (fst (mstep rt (OFit M o X y) (mrun rt h w)))) o = Some ob'
+         /\ o_coef P ob' = Some (mfit_value rt (o_proj P ob) hy X y)
+         /\ o_proj P ob' = o_proj P ob /\ o_lin P ob' = o_lin P ob
+         /\ (o_proj P ob = false -> o_maxc P ob' = Some (r_pad_q rt X y)).
+Proof. by move=> M P H E R rt h w o X y ob hy; apply: fit_after_history. Qed.
+Print Assumptions C18_fit_after_history.
+
+(* a rejected fit (check_X_y, 1-D y in padded mode) leaves every object as it was *)
+Theorem C18_rejected_fit_keeps_state :
+  forall (M P H E R : Type) (rt : routines M P H E R) (w : world P H) (o : nat) (X y : M) (e : E),
+    snd (mstep rt (OFit M o X y) w) = OutErr E R e ->
+    w_objs P H (fst (mstep rt (OFit M o X y) w)) = w_objs P H w
+    /\ w_heap P H (fst (mstep rt (OFit M o X y) w)) = w_heap P H w.
+Proof. by move=> M P H E R rt w o X y e; apply: rejected_fit_keeps_state. Qed.
+Print Assumptions C18_rejected_fit_keeps_state.
+
+(* invariant: started on objects without coef_, EVERY coef_ observable at any time of any history is
+   the fresh-fit value of one accepted fit call of that history on that very object, with
+   hyper-parameters of the initial heap - so all theorems above about one fit apply to it *)
+Theorem C18_coef_provenance :
+  forall (M P H E R : Type) (rt : routines M P H E R) (h : list (op M)) (w : world P H) (o : nat)
+         (ob' : obj P) (c : P),
+    (forall ob0, List.In ob0 (w_objs P H w) -> o_coef P ob0 = None) ->
+    List.nth_error (w_objs P H (mrun rt h w)) o = Some ob' -> o_coef P ob' = Some c ->
+    mprov rt (List.map (e_hyper P H) (w_heap P H w)) h o c.
+Proof. by move=> M P H E R rt h w o ob' c; apply: coef_provenance. Qed.
+Print Assumptions C18_coef_provenance.
+
+(* layer-D instance (shapes; the one run against the implementation): after an accepted fit predict
+   accepts, in padded mode, every finite non-empty array with 1 <= c <= max(p, t) columns (zero
+   padding) and returns max(p, t) columns, a wider one is rejected; in projector mode exactly
+   n_features columns are accepted and n_targets (1 for a 1-D y) are returned - for all sizes *)
+Theorem C18_predict_shape_after_fit :
+  forall (w : dworld) (o : nat) (ob : dobj) (X y Xn : dmat) (c : nat),
+    List.nth_error (w_objs _ _ w) o = Some ob ->
+    snd (d_step (dFit o X y) w) = dOk ->
+    d_cols Xn = Some c -> c <> 0%N -> d_fin Xn = true -> d_rows Xn <> 0%N ->
+    snd (d_step (dPredict o Xn) (fst (d_step (dFit o X y) w)))
+    = dPred (if o_proj _ ob
+             then (if Nat.eqb c (d_ncols X) then DShape (d_rows Xn) (d_ncols y) else DErr EValue)
+             else (if Nat.ltb (Nat.max (d_ncols X) (d_ncols y)) c then DErr EValue
+                   else DShape (d_rows Xn) (Nat.max (d_ncols X) (d_ncols y)))).
+Proof. exact: d_predict_after_fit. Qed.
+Print Assumptions C18_predict_shape_after_fit.
+
+(* non-vacuity: a concrete history on the layer-D machine - the user pre-fits his estimator on data 7,
+   the regression (projector mode, holding that estimator) is fitted on data 0 (4 x 3 -> 2 targets),
+   switched to padded mode, a 1-D target is rejected with IndexError and changes nothing, it is
+   refitted on data 2 (5 x 2 -> 3 targets): coef_ is 3 x 3 from data 2 alone, max_components_ = 3,
+   the user's estimator still carries his own fit on data 7; predict pads a 1-column input *)
+Example C18_history_nonvacuous :
+  let w0 := dWorld [:: dEst 1 None] [:: dObj true (Some 0%N) None None] in
+  let h := [:: dUserFit 0 (mk_dmat 6 (Some 3%N) true 7) (mk_dmat 6 (Some 2%N) true 7);
+            dFit 0 (mk_dmat 4 (Some 3%N) true 0) (mk_dmat 4 (Some 2%N) true 0);
+            dSetProj 0 false;
+            dFit 0 (mk_dmat 4 (Some 3%N) true 1) (mk_dmat 4 None true 1);
+            dFit 0 (mk_dmat 5 (Some 2%N) true 2) (mk_dmat 5 (Some 3%N) true 2);
+            dPredict 0 (mk_dmat 9 (Some 1%N) true 0)] in
+  List.map fst (d_trace h w0)
+  = [:: dOk; dOk; dOk; dErr EIndex; dOk; dPred (DShape 9 3)]
+  /\ d_run h w0 = dWorld [:: dEst 1 (Some (mk_dcoef 2 3 true (Some 1%N) 7 7))]
+                         [:: dObj false (Some 0%N) (Some (mk_dcoef 3 3 false None 2 2)) (Some 3%N)]
+  /\ List.nth_error (List.map snd (d_trace h w0)) 1
+     = Some (dWorld [:: dEst 1 (Some (mk_dcoef 2 3 true (Some 1%N) 7 7))]
+                    [:: dObj true (Some 0%N) (Some (mk_dcoef 2 3 true (Some 1%N) 0 0)) None]).
+Proof. by vm_compute. Qed.
